@@ -510,7 +510,8 @@ def r6_move_copy(P, rep, ctx):
     # after the copy returned normally -- no other delete (e.g. a clean-up of the destination in an exception handler, which
     # also removes a destination that existed before and was the reason for the refusal), no __delitem__ / pop call
     other_del = [n.idx for n in g.nodes if n.kind == "stmt" and isinstance(n.stmt, ast.Delete) and n.idx not in dl]
-    other_del += [n.idx for n in g.nodes if any(call_attr(c) in ("__delitem__", "pop", "clear", "_create_virtual") for c in g.calls(n.idx))]
+    # (calls that remove nodes: on the group itself or on anything reached through it -- `kwargs.pop(..)` and the like are not)
+    other_del += [n.idx for n in g.nodes if any(call_attr(c) in ("__delitem__", "pop", "clear", "_create_virtual") and isinstance(c.func, ast.Attribute) and norm(c.func.value).split(".")[0].split("[")[0] == "self" for c in g.calls(n.idx))]
     for d in other_del:
         rep.check(False, "C01.R6", fi.qual, "move deletes nothing but the source, after the copy succeeded", fi.loc(g.nodes[d].stmt), construct=norm(g.nodes[d].stmt)[:80],
                   message=f"IH5Group.move also removes `{norm(g.nodes[d].stmt)[:80]}`: a move that is refused (destination exists, source missing) no longer leaves the tree unchanged — a destination that existed before is deleted")
